@@ -587,7 +587,13 @@ def load(
                 p = -p
             r = bdd.find_or_add(i, p, q)
             umap[abs(u)] = r
-    bdd.roots.update(roots)
+    # map root node indices in the file to
+    # references to nodes in `bdd`
+    for root in roots:
+        r = umap[abs(root)]
+        if root < 0:
+            r = -r
+        bdd.roots.add(r)
     return bdd
 
 
